@@ -862,6 +862,8 @@ type Solver struct {
 	Time    time.Duration
 	mu      sync.Mutex
 	restarts int
+	noRestart bool // portfolio solvers are one-shot: never restarted (their owner closes them concurrently)
+	closed   bool
 }
 
 // StartSolverTO starts a solver whose per-check time limit (where it must be given on the
@@ -915,6 +917,9 @@ func (s *Solver) start() error {
 }
 
 func (s *Solver) Close() {
+	s.mu.Lock()
+	defer s.mu.Unlock()
+	s.closed = true
 	if s.cmd != nil && s.cmd.Process != nil {
 		s.in.Close()
 		s.cmd.Process.Kill()
@@ -928,9 +933,12 @@ func (s *Solver) Close() {
 func (s *Solver) Restart() {
 	s.restarts++
 	s.Close()
+	s.mu.Lock()
+	defer s.mu.Unlock()
 	if err := s.start(); err != nil {
 		panic(err)
 	}
+	s.closed = false
 }
 
 func (s *Solver) Send(text string) {
@@ -991,7 +999,11 @@ func (s *Solver) CheckSat(timeout time.Duration) string {
 	s.Send("(check-sat)\n")
 	ans, ok := s.readAnswer(timeout + 3*time.Second)
 	if !ok {
-		// hard timeout or dead: restart
+		// hard timeout or dead: restart (one-shot portfolio solvers are just abandoned)
+		if s.noRestart {
+			s.dead = true
+			return "unknown"
+		}
 		s.Restart()
 		return "unknown"
 	}
